@@ -62,6 +62,21 @@ Theorem C20_no_escape : forall E p h q r,
 Proof. exact no_escape. Qed.
 Print Assumptions C20_no_escape.
 
+Theorem C20_in_wd_componentwise : forall E r f,
+  in_wd E r f = true <-> exists rest, resolve E f = workdir r ++ rest.
+Proof. exact in_wd_componentwise. Qed.
+Print Assumptions C20_in_wd_componentwise.
+
+Theorem C20_sibling_not_inside : forall (w : path) (c c' : str) (rest : path),
+  c' <> c -> prefixb (w ++ [c]) (w ++ c' :: rest) = false.
+Proof. exact sibling_not_inside. Qed.
+Print Assumptions C20_sibling_not_inside.
+
+Theorem C20_recorded_componentwise : forall E p h q r,
+  recorded_in E (handle_checkpoint E p h) q r -> exists rest, q = workdir r ++ rest.
+Proof. exact recorded_componentwise. Qed.
+Print Assumptions C20_recorded_componentwise.
+
 Theorem C20_failed_pass_records_nothing : forall E p h q r,
   recorded_in E (handle_checkpoint E p h) q r -> is_bare r = false /\ e_run_fails E r = false.
 Proof. exact failed_pass_records_nothing. Qed.
